@@ -36,15 +36,19 @@ func c18Base() *spec.Program {
 	m("MV", nil, f("MStr", 1, spec.KString), f("MFlag", 2, spec.KBool))
 	m("OB", nil, f("OStr", 1, spec.KString))
 	m("EmbX", nil, f("XStr", 1, spec.KString), f("XNum", 2, spec.KInt32))
+	// selected types whose names extend the name of a type that will fail, declared before and after it
+	m("RootAExt", nil, f("AxStr", 1, spec.KString), f("AxNum", 2, spec.KInt64))
 	m("RootA", nil, f("AStr", 1, spec.KString), f("AShared", 2, spec.KMessage, ref("Shared")), f("AMode", 3, spec.KEnum, ref("Mode")))
 	m("RootB", nil, f("BStr", 1, spec.KString), f("BItems", 2, spec.KMessage, ref("Shared"), list), f("BMap", 3, spec.KString, mp))
 	m("RootC", nil, f("CStr", 1, spec.KString), f("CVals", 2, spec.KMessage, ref("MV"), mp, nn))
 	m("RootD", []string{"Pick"}, f("DStr", 1, spec.KString), f("PickS", 2, spec.KString, oo("Pick")), f("PickO", 3, spec.KMessage, ref("OB"), oo("Pick")))
 	m("RootE", nil, f("EStr", 1, spec.KString), f("EmbX", 2, spec.KMessage, ref("EmbX"), emb, nn))
+	m("RootBExt", nil, f("BxStr", 1, spec.KString), f("BxInner", 2, spec.KMessage, ref("Inner")))
+	m("RootD2", nil, f("D2Str", 1, spec.KString))
 	m("Clean", nil, f("Name", 1, spec.KString), f("Count", 2, spec.KInt64), f("Inner", 3, spec.KMessage, ref("Inner"), nn))
 	m("Unselected", nil, f("UStr", 1, spec.KString))
 	p.Config = spec.Config{
-		Types:          []string{"RootA", "RootB", "RootC", "RootD", "RootE", "Clean"},
+		Types:          []string{"RootAExt", "RootA", "RootB", "RootC", "RootD", "RootE", "RootBExt", "RootD2", "Clean"},
 		ComputedFields: []string{"Clean.Count"},
 		NameOverrides:  map[string]string{"Clean.Name": "clean_name"},
 	}
@@ -114,7 +118,7 @@ var badPositions = []badPos{
 	{name: "direct-first", msg: "RootB", first: true, pathKeys: func(f string) []string { return []string{"RootB." + f} }},
 	{name: "nested+list-element", msg: "Shared", pathKeys: func(f string) []string { return []string{"RootA.AShared." + f, "RootB.BItems." + f} }},
 	{name: "depth-2", msg: "Inner", first: true, pathKeys: func(f string) []string {
-		return []string{"RootA.AShared.SInner." + f, "RootB.BItems.SInner." + f, "Clean.Inner." + f}
+		return []string{"RootA.AShared.SInner." + f, "RootB.BItems.SInner." + f, "Clean.Inner." + f, "RootBExt.BxInner." + f}
 	}},
 	{name: "map-value", msg: "MV", pathKeys: func(f string) []string { return []string{"RootC.CVals." + f} }},
 	{name: "oneof-branch-message", msg: "OB", pathKeys: func(f string) []string { return []string{"RootD.PickO." + f} }},
